@@ -54,6 +54,18 @@ CLAIMED.update({
         design="6/C03"),
 })
 
+CLAIMED.update({
+    "C06": dict(
+        technique="Lean 4 proof (lexical path algebra: root-independent confinement, closure under join/parent/by-hash) + is_safe_path correspondence + audit-hook confinement monitor on hostile end-to-end runs",
+        text=("C06_lexsafe_confined (an accepted path resolves below every directory it is joined to), C06_join_safe, C06_parent_safe, "
+              "C06_byhash_safe and the rejection theorems are proved for all paths and roots; is_safe_path is compared with the model on "
+              "an attacker grammar; hostile Release/Packages/Sources/hash-field entries aimed at decoys are served to real runs (with "
+              "mirror_path on a differently named parent) and every attempted filesystem mutation must stay inside skel/<repo>, "
+              "mirror/<repo>, var."),
+        note="Symlink-free trees (S2). Two escapes found on the original tree were fixed (21eb5fb, 355dbb5). Trusted: Lean kernel, model, harness.",
+        design="6/C06"),
+})
+
 NOT_YET = {}
 
 
